@@ -535,7 +535,8 @@ def one_defect_spec(rng):
 
 
 DEFECTS = ["duplicate-section", "duplicate-property", "unknown-element", "bad-value", "nameless-property",
-           "attribute", "bad-cardinality", "bad-id", "odd-value-text", "dependency-on-typed"]
+           "attribute", "bad-cardinality", "bad-id", "odd-value-text", "dependency-on-typed", "misplaced-key",
+           "cardinality-digits"]
 
 TYPED_TARGETS = [("int", "[1,2]", "two"), ("float", "1.5", "x"), ("boolean", "true", "yes"), ("date", "2020-01-02", "tomorrow"),
                  ("time", "01:02:03", "noon"), ("datetime", "2020-01-02 03:04:05", "now"), ("2-tuple", "(1;2)", "1"), ("int", "[1,2]", "2")]
@@ -580,6 +581,26 @@ def inject_xml_defect(rng, text, defect):
                              "<dependencyvalue>%s</dependencyvalue></property>" % depval)
         top.insert(rng.randrange(len(top)), a)
         top.insert(rng.randrange(len(top)), b)
+    elif defect == "misplaced-key":
+        # an element of another level of the format: <value> / <dtype> below a Section, <property> below the Document
+        kind_ = rng.choice(["value-in-section", "type-list", "property-in-document", "author-in-section"])
+        if kind_ == "value-in-section":
+            e = etree.fromstring("<value>[1,2]</value>")
+            top.insert(rng.randrange(len(top)), e)
+        elif kind_ == "type-list":
+            e = etree.fromstring("<dtype>int</dtype>")
+            top.insert(rng.randrange(len(top)), e)
+        elif kind_ == "author-in-section":
+            e = etree.fromstring("<author>somebody</author>")
+            top.insert(rng.randrange(len(top)), e)
+        else:
+            e = etree.fromstring("<property><name>stray</name><value>1</value><type>int</type></property>")
+            root.insert(rng.randrange(len(root)), e)
+    elif defect == "cardinality-digits":
+        # bounds with different digit counts in the wrong order (text order and numeric order disagree)
+        e = etree.Element(rng.choice(["prop_cardinality", "sec_cardinality"]))
+        e.text = rng.choice(["(10, 2)", "(100, 11)", "(12, 9)", "(20, 3)"])
+        top.insert(0, e)
     elif defect == "odd-value-text":
         e = etree.fromstring("<property><name>defective</name><value/><type>string</type></property>")
         e.find("value").text = rng.choice(ODD_VALUE_TEXTS)
@@ -618,7 +639,8 @@ def check_keeps_valid_parts(ctx, spec, text, defect, case):
             return
         d = [i for i in model.diff({k: v for k, v in node.items() if k not in ("sections", "properties")},
                                    {k: v for k, v in g.items() if k not in ("sections", "properties")})
-             if not (defect == "bad-id" and i["field"] == "id") and not (defect == "bad-cardinality" and i["field"] == "prop_cardinality")]
+             if not (defect == "bad-id" and i["field"] == "id") and not (defect == "bad-cardinality" and i["field"] == "prop_cardinality")
+             and not (defect == "cardinality-digits" and i["field"].endswith("_cardinality"))]
         if d:
             rec.violation("xml/lenient/one-defect:%s/valid-%s-altered:%s" % (defect, node["k"], d[0]["field"]),
                           "%s: %r" % (path, d[:1]), case)
@@ -654,6 +676,18 @@ def inject_dict_defect(rng, d, defect):
         top["properties"].insert(rng.randrange(len(top["properties"])),
                                  {"name": "dependent", "type": "int", "value": [1], "dependency": "typed_target",
                                   "dependency_value": depval})
+    elif defect == "misplaced-key":
+        # a key of another level of the format, in the python-side or the file-side spelling
+        where = rng.choice(["document", "section", "property"])
+        if where == "document":
+            d["Document"][rng.choice(["properties", "dtype", "values", "value", "type", "name", "definition"])] = rng.choice([[], "x", 1])
+        elif where == "section":
+            top[rng.choice(["dtype", "values", "value", "unit", "val_cardinality", "author", "version"])] = rng.choice([[1], "x", "int"])
+        else:
+            top["properties"][0][rng.choice(["sections", "properties", "sec_cardinality", "author", "include", "link"])] = \
+                rng.choice([[], "x", None])
+    elif defect == "cardinality-digits":
+        top[rng.choice(["prop_cardinality", "sec_cardinality"])] = rng.choice([[10, 2], [100, 11], [12, 9]])
     elif defect == "odd-value-text":
         top["properties"].insert(rng.randrange(len(top["properties"])),
                                  {"name": "defective", "type": "int", "value": rng.choice([[[1, [2]]], {"a": 1}, [None], "[1,", [1, "x"]])})
@@ -686,7 +720,8 @@ def check_dict_keeps_valid_parts(ctx, spec, d, defect, case):
             return
         dd = [i for i in model.diff({k: v for k, v in node.items() if k not in ("sections", "properties")},
                                     {k: v for k, v in g.items() if k not in ("sections", "properties")})
-              if not (defect == "bad-id" and i["field"] == "id") and not (defect == "bad-cardinality" and i["field"] == "prop_cardinality")]
+              if not (defect == "bad-id" and i["field"] == "id") and not (defect == "bad-cardinality" and i["field"] == "prop_cardinality")
+              and not (defect == "cardinality-digits" and i["field"].endswith("_cardinality"))]
         if dd:
             rec.violation("dict/lenient/one-defect:%s/valid-%s-altered:%s" % (defect, node["k"], dd[0]["field"]),
                           "%s: %r" % (path, dd[:1]), case)
